@@ -258,10 +258,12 @@ def run(run, tier, loadcfg):
     run.rule_text = 'one instance per (function x rule x configuration)'
     run.explanation = __doc__
     run.assumptions = ['amplitude abstraction (C01/C02); floating-point rounding ignored', 'Fixed ring buffer = indexable delay line (C06)', 'Range(0..m).fold visits n = 0..m-1 in order']
-    for cfg in ['std-debug'] + (['nostd'] if tier == 'thorough' else []):
+    for cfg in ['std-debug', 'std-release'] + (['nostd'] if tier == 'thorough' else []):
         fx_ = loadcfg(cfg, optional=(cfg == 'nostd'))
         if fx_ is None:
             continue
         cx = Ctx(fx_)
         check_state(run, cx, cfg)
         check_interpolate(run, cx, cfg)
+        from rules import C06
+        C06.check_used(run, cx, cfg, [b for b in fx_.bodies.values() if b['path'].startswith(('dasp_interpolate::sinc::Sinc', '<dasp_interpolate::sinc::Sinc'))], 7)
